@@ -21,24 +21,24 @@ theorem SameFrame.trans {a b c : Term} (x : SameFrame a b) (y : SameFrame b c) :
   ⟨y.h.trans x.h, y.w.trans x.w, y.sb.trans x.sb, y.vis.trans x.vis, y.alt.trans x.alt⟩
 
 theorem putCells (cs : List TCell) (t : Term) (hpw : t.pw = false) (hfit : t.c + cs.length ≤ t.w) :
-    SameFrame t (cs.foldl Term.putCell t) ∧ (cs.foldl Term.putCell t).g = t.g ∧ (cs.foldl Term.putCell t).r = t.r ∧
+    SameFrame t (cs.foldl Term.putCell t) ∧ (cs.foldl Term.putCell t).r = t.r ∧
     (∀ r c, (cs.foldl Term.putCell t).grid r c =
       if r = t.r ∧ t.c ≤ c ∧ c < t.c + cs.length then cs[c - t.c]?.getD blank else t.grid r c) ∧
     (t.c + cs.length < t.w → (cs.foldl Term.putCell t).c = t.c + cs.length ∧ (cs.foldl Term.putCell t).pw = false) := by
   induction cs generalizing t with
   | nil =>
-    refine ⟨SameFrame.rfl' t, rfl, rfl, ?_, ?_⟩
+    refine ⟨SameFrame.rfl' t, rfl, ?_, ?_⟩
     · intro r c; simp; omega
     · intro _; simp [hpw]
   | cons x xs ih =>
     simp only [List.foldl_cons]
     by_cases hc : t.c + 1 < t.w
-    · have e : t.putCell x = { t.set t.r t.c x with c := t.c + 1 } := by
+    · have e : t.putCell x = { t.set t.r t.c x with c := t.c + 1, g := x.2 } := by
         simp [Term.putCell, hpw, Term.set, hc]
       rw [e]
-      have := ih { t.set t.r t.c x with c := t.c + 1 } (by simp [Term.set, hpw]) (by simp [Term.set] at hfit ⊢; omega)
-      obtain ⟨f, g, r, gr, cc⟩ := this
-      refine ⟨⟨f.h, f.w, f.sb, f.vis, f.alt⟩, g, r, ?_, ?_⟩
+      have := ih { t.set t.r t.c x with c := t.c + 1, g := x.2 } (by simp [Term.set, hpw]) (by simp [Term.set] at hfit ⊢; omega)
+      obtain ⟨f, r, gr, cc⟩ := this
+      refine ⟨⟨f.h, f.w, f.sb, f.vis, f.alt⟩, r, ?_, ?_⟩
       · intro r' c'
         rw [gr]
         simp only [Term.set, List.length_cons]
@@ -64,10 +64,10 @@ theorem putCells (cs : List TCell) (t : Term) (hpw : t.pw = false) (hfit : t.c +
         | nil => rfl
         | cons y ys => simp at hfit; omega
       subst hx
-      have e : t.putCell x = { t.set t.r t.c x with pw := true } := by
+      have e : t.putCell x = { t.set t.r t.c x with pw := true, g := x.2 } := by
         simp [Term.putCell, hpw, Term.set, hc]
       simp only [List.foldl_nil, e]
-      refine ⟨⟨rfl, rfl, rfl, rfl, rfl⟩, rfl, rfl, ?_, ?_⟩
+      refine ⟨⟨rfl, rfl, rfl, rfl, rfl⟩, rfl, ?_, ?_⟩
       · intro r' c'
         simp only [Term.set, List.length_cons, List.length_nil]
         by_cases h2 : r' = t.r ∧ c' = t.c
@@ -84,9 +84,12 @@ def Shows (t : Term) (row : Nat) (cs : List TCell) : Prop := ∀ c, c < t.w → 
 structure RowStep (t t' : Term) (row : Nat) : Prop where
   frame : SameFrame t t'
   others : ∀ r, r ≠ row → ∀ c, t'.grid r c = t.grid r c
-  bg : t'.g.bg = none
+  bg : t'.g = {}
 
-theorem erased_blank (t : Term) (h : t.g.bg = none) : t.erased = blank := by
+theorem erased_blank (t : Term) (h : t.g = {}) : t.erased = blank := by
+  rw [Term.erased, h]; rfl
+
+theorem erased_blank_old (t : Term) (h : t.g.bg = none) : t.erased = blank := by
   simp [Term.erased, h, blank]
 
 /-- move to column 0 of `row`, print `cs` (at most a full row), clear to end of line unless the row is full -/
@@ -97,7 +100,7 @@ theorem writeRow (t : Term) (row : Nat) (cs : List TCell) (hrow : row < t.h) (hl
   have e1 : t.step (.cup row 0) = t1 := by
     have a : min row (t.h - 1) = row := by omega
     simp [Term.step, a, t1]
-  obtain ⟨f, g, r, gr, cc⟩ := putCells cs t1 rfl (by simpa [t1] using hlen)
+  obtain ⟨f, r, gr, cc⟩ := putCells cs t1 rfl (by simpa [t1] using hlen)
   let t2 : Term := { cs.foldl Term.putCell t1 with g := {} }
   have e2 : t1.step (.put cs {}) = t2 := rfl
   have gr2 : ∀ r c, t2.grid r c = if r = row ∧ c < cs.length then cs[c]?.getD blank else t.grid r c := by
@@ -129,7 +132,7 @@ theorem writeRow (t : Term) (row : Nat) (cs : List TCell) (hrow : row < t.h) (hl
       rw [gr2, if_pos ⟨rfl, by omega⟩]
 
 /-- move to column 0 of `row`, clear to end of line, clear to beginning of line -/
-theorem blankRow (t : Term) (row : Nat) (hrow : row < t.h) (hbg : t.g.bg = none) :
+theorem blankRow (t : Term) (row : Nat) (hrow : row < t.h) (hbg : t.g = {}) :
     RowStep t (exec t [.cup row 0, .el0, .el1]) row ∧ Shows (exec t [.cup row 0, .el0, .el1]) row [] := by
   have a : min row (t.h - 1) = row := by omega
   have her : t.erased = blank := erased_blank t hbg
